@@ -811,6 +811,15 @@ struct Emitter {
         body << "  { unsigned __int128 p = (unsigned __int128)" << V(CB.getArgOperand(0)) << " + (unsigned __int128)" << V(CB.getArgOperand(1)) << "; "
              << L << ".f0 = (" << cty(CB.getArgOperand(0)->getType()) << ")p; " << L << ".f1 = (p >> " << CB.getArgOperand(0)->getType()->getIntegerBitWidth() << ") != 0; }\n";
       }
+      else if (n.startswith("llvm.sadd.with.overflow") || n.startswith("llvm.ssub.with.overflow") || n.startswith("llvm.smul.with.overflow")) {
+        unsigned W = CB.getArgOperand(0)->getType()->getIntegerBitWidth();
+        std::string st = "int" + std::to_string(W) + "_t";
+        const char* opc = n.startswith("llvm.sadd") ? "+" : n.startswith("llvm.ssub") ? "-" : "*";
+        const char* ovf = n.startswith("llvm.sadd") ? "__CPROVER_overflow_plus" : n.startswith("llvm.ssub") ? "__CPROVER_overflow_minus" : "__CPROVER_overflow_mult";
+        body << "  { " << st << " x = (" << st << ")" << V(CB.getArgOperand(0)) << ", y = (" << st << ")" << V(CB.getArgOperand(1)) << "; "
+             << L << ".f1 = " << ovf << "(x, y); " << L << ".f0 = (" << cty(CB.getArgOperand(0)->getType()) << ")((u" << st << ")x " << opc << " (u" << st << ")y); }\n";
+      }
+      else if (n.startswith("llvm.va_start") || n.startswith("llvm.va_end")) { body << "  __CPROVER_assert(0, \"model bound: va_list in translated code\");\n"; }
       else die("intrinsic " + n.str());
     }
     if (!handled && F && (F->getName() == "_Znwm" || F->getName() == "_Znam") && isa<ConstantInt>(CB.getArgOperand(0)) && !L.empty()) {
